@@ -248,10 +248,20 @@ abbrev Res := Option (Option St × Lexer)
 def errorf (l : Lexer) : Res :=
   some (none, { l with items := l.items.push { typ := .tError, pos := l.pos.toNat, val := [] } })
 
+/-- classes of the errors `errorfAt` reports (the model keeps the class of an error in the
+    item's `val`, one byte, instead of the message text; `errorf` items have the empty class):
+    1 "unclosed tag", 2 "unexpected eof while scanning string", 3 "unclosed block comment",
+    4 "unexpected eof when scanning soydoc", 5 "unclosed literal" -/
+def clsTag : UInt8 := 1
+def clsString : UInt8 := 2
+def clsComment : UInt8 := 3
+def clsSoyDoc : UInt8 := 4
+def clsLiteral : UInt8 := 5
+
 /-- `l.errorfAt(pos, ...)`: an Error item positioned where an unclosed construct begins
     (`l.start`, `docStart` or `l.tagStart`, none of which is ever negative). -/
-def errorfAt (l : Lexer) (pos : Int) : Res :=
-  some (none, { l with items := l.items.push { typ := .tError, pos := pos.toNat, val := [] } })
+def errorfAt (l : Lexer) (pos : Int) (cls : UInt8) : Res :=
+  some (none, { l with items := l.items.push { typ := .tError, pos := pos.toNat, val := [cls] } })
 
 /-! ### Facts about `next` needed for the termination of the scanning loops -/
 
@@ -459,7 +469,7 @@ def lexBlockComment (l : Lexer) (star : Bool) : Res :=
   match h : l.next with
   | none => none
   | some (r, l1) =>
-    if r = eof then errorfAt l1 l1.start
+    if r = eof then errorfAt l1 l1.start clsComment
     else if r = 42 then lexBlockComment l1 true
     else if r = 47 ∧ star = true then
       match l1.emit .tComment with
@@ -625,7 +635,7 @@ def lexSoyDocLoop (l : Lexer) (docStart : Int) (star startOfLine : Bool) : Res :
   match h : l.next with
   | none => none
   | some (ch, l1) =>
-    if hE : ch = eof then errorfAt l1 docStart
+    if hE : ch = eof then errorfAt l1 docStart clsSoyDoc
     else if star = true ∧ ch = 47 then
       match maybeEmitText l1 2 with
       | none => none
@@ -829,7 +839,7 @@ def lexSymbol (l : Lexer) : Res := do
 def lexInsideTagRest (r : Int) (l : Lexer) : Res :=
   if r = 34 ∨ r = 39 then pure (some (.str r), l)
   else if r = 61 then emitInside l .tEquals
-  else if r = eof then errorfAt l l.tagStart
+  else if r = eof then errorfAt l l.tagStart clsTag
   else if r = 124 then emitInside l .tPipe
   else if isLetterOrUnderscore r then pure (some .ident, l.backup)
   else if r = 44 then emitInside l .tComma
@@ -876,7 +886,7 @@ def lexString (quote : Int) (l : Lexer) : Res :=
   match h : l.next with
   | none => none
   | some (r, l1) =>
-    if hE : r = eof then errorfAt l1 l1.start
+    if hE : r = eof then errorfAt l1 l1.start clsString
     else if r = 92 then
       -- skip escape sequences
       match h2 : l1.next with
@@ -969,7 +979,7 @@ def lexHeaderParam (l : Lexer) : Res := do
       let l ← skipSpace l
       -- Consume until the equals or end of the tag.
       let (ch, l, lastNonSpace) ← headerTypeLoop l l.pos
-      if ch = eof then errorfAt l l.tagStart
+      if ch = eof then errorfAt l l.tagStart clsTag
       else do
         let l : Lexer := { l with pos := lastNonSpace }
         let l ← l.emit .tHeaderParamType
@@ -984,7 +994,7 @@ def lexCss (l : Lexer) : Res := do
   let (_, l) ← l.next
   let l := l.ignore
   let (ch, l) ← scanWhile cssBody (by decide) l
-  if ch = eof then errorfAt l l.tagStart
+  if ch = eof then errorfAt l l.tagStart clsTag
   else do
     let l ← l.backup.emit .tText
     let (_, l) ← l.next
@@ -1012,7 +1022,7 @@ def lexLiteral (l : Lexer) : Res := do
       let delimLen : Int := if l.doubleDelim then 2 else 1
       let rest ← sliceFrom l.input l.pos
       match stringsIndex expectClose rest with
-      | none => errorfAt l l.tagStart
+      | none => errorfAt l l.tagStart clsLiteral
       | some i => do
         let l := l.addPos i
         let l ← (if i > 0 then l.emit .tText else pure l)
@@ -1054,7 +1064,8 @@ def scanNumber (l : Lexer) : Option (ItemType × Bool × Lexer) := do
     -- Hexadecimal.
     if hasSign then pure (.tInteger, false, l) -- No signs for hexadecimals.
     else do
-      let (_, l) ← acceptRun l [48, 120]
+      -- `l.pos += 2`: exactly the two bytes of the prefix (7a9e4b4; it was acceptRun("0x"))
+      let l : Lexer := { l with pos := l.pos + 2 }
       let (ok, l) ← acceptRun l hexDigits
       if !ok then pure (.tInteger, false, l) -- Requires at least one digit.
       else do
